@@ -76,3 +76,27 @@ func TestGlobalWindow_ExpressionAggregateIsNotThePlainOne(t *testing.T) {
         GROUP BY k, GLOBAL WINDOW TRIGGER WHEN sum(v) >= 6`)
 	assert.EqualValues(t, 12, got["s"])
 }
+
+// TestGlobalWindow_TriggerOverExpressionAggregate: an aggregate in TRIGGER WHEN
+// may be computed over an expression, with parentheses and function calls of
+// its own, whether or not the same aggregate is selected.
+func TestGlobalWindow_TriggerOverExpressionAggregate(t *testing.T) {
+	t.Parallel()
+	for _, trigger := range []string{
+		"sum(v*2) >= 12",
+		"sum((v+w)*2) >= 42 AND max(abs(v - w)) >= 4",
+		"abs(sum(v - w)) >= 9",
+		"count(CASE WHEN v > 1 THEN 1 END) >= 2",
+	} {
+		got := runGlobalWindowExpr(t, `
+            SELECT k, count(*) AS c FROM stream
+            GROUP BY k, GLOBAL WINDOW TRIGGER WHEN `+trigger)
+		assert.EqualValues(t, 3, got["c"], trigger)
+	}
+
+	got := runGlobalWindowExpr(t, `
+        SELECT k, count(*) AS c, sum(v*2) AS s FROM stream
+        GROUP BY k, GLOBAL WINDOW TRIGGER WHEN sum(v * 2) >= 12`)
+	assert.EqualValues(t, 3, got["c"])
+	assert.EqualValues(t, 12, got["s"])
+}
